@@ -2955,6 +2955,18 @@ int x509_exts_check(const uint8_t *exts, size_t extslen, int cert_type,
 		}
 	}
 
+	// a certificate used as an issuer must carry basicConstraints with cA = TRUE
+	switch (cert_type) {
+	case X509_cert_ca:
+	case X509_cert_root_ca:
+	case X509_cert_crl_sign:
+		if (ca != 1) {
+			error_print();
+			return -1;
+		}
+		break;
+	}
+
 	return 1;
 }
 
